@@ -121,7 +121,7 @@ def run(ctx):
         for c in cases[::7][:150]:
             outs = set()
             for _ in range(6):
-                rc, out, err = core.run_real_binary(binary, c.argv(), c.files)
+                rc, out, err = core.run_real_binary(binary, c.argv(), c.files, stable_dir=True)
                 # the message on stderr carries log.Fatal's time stamp, which is not part of the result
                 outs.add((rc, out, re.sub(rb'(?m)^\d{4}/\d\d/\d\d \d\d:\d\d:\d\d ', b'', err)))
             n += 1
